@@ -38,15 +38,32 @@ Proof.
     + rewrite Hkx in Hs. contradiction.
 Qed.
 
-Theorem no_notify_after_cancel : forall s c p o s' out es,
-  inv s -> step s (Cancel c p o) = (s', out) -> o_ack out = 1 ->
-  Forall wf_ev es -> Forall (fun e => ~ is_subscribe_of (c, p, o) e) es ->
-  forall n, In n (all_ntfs (snd (run s' es))) -> nkey n <> (c, p, o).
+Definition is_cancel_of (k : Z * Z * Z) (e : ev) : Prop :=
+  match e with Cancel c p o => k = (c, p, o) | CancelNow c p o => k = (c, p, o) | _ => False end.
+
+Lemma cancel_removes : forall s e k s' out, inv s -> is_cancel_of k e -> step s e = (s', out) -> o_ack out = 1 ->
+  inv s' /\ ~ In k (keys (subs s')).
 Proof.
-  intros s c p o s' out es Hi S Hack Hw Hns. cbn [step] in S.
-  destruct (drain s) as [s1 ns] eqn:D. destruct (drain_facts _ _ _ Hi D) as [A _].
-  destruct (do_cancel_facts _ _ _ _ _ _ _ A S) as [A' [_ [_ [_ [Hgone _]]]]].
-  apply absent_no_ntf; auto.
+  intros s e k s' out Hi Hc S Hack. destruct e; try contradiction; cbn in Hc; subst k; cbn [step] in S.
+  - destruct (drain s) as [s1 n1] eqn:D1. destruct (drain_facts _ _ _ Hi D1) as [A1 _].
+    destruct (cancel_now s1 c p o) as [[s2 ok] code] eqn:CN.
+    destruct (cancel_now_facts _ _ _ _ _ _ _ A1 CN) as [A2 [_ [_ [Hgone _]]]].
+    destruct (drain s2) as [s3 n3] eqn:D3. destruct (drain_facts _ _ _ A2 D3) as [A3 [_ [C3 _]]].
+    inversion S; subst s' out. split; [exact A3|]. rewrite C3. apply Hgone.
+    unfold req_out in Hack. destruct ok; [reflexivity|cbn in Hack; lia].
+  - destruct (cancel_now s c p o) as [[s2 ok] code] eqn:CN.
+    destruct (cancel_now_facts _ _ _ _ _ _ _ Hi CN) as [A2 [_ [_ [Hgone _]]]].
+    inversion S; subst s' out. split; [exact A2|]. apply Hgone.
+    unfold req_out in Hack. destruct ok; [reflexivity|cbn in Hack; lia].
+Qed.
+
+Theorem no_notify_after_cancel : forall s e k s' out es,
+  inv s -> is_cancel_of k e -> step s e = (s', out) -> o_ack out = 1 ->
+  Forall wf_ev es -> Forall (fun e => ~ is_subscribe_of k e) es ->
+  forall n, In n (all_ntfs (snd (run s' es))) -> nkey n <> k.
+Proof.
+  intros s e k s' out es Hi Hc S Hack Hw Hns.
+  destruct (cancel_removes _ _ _ _ _ Hi Hc S Hack) as [A' Hgone]. apply absent_no_ntf; auto.
 Qed.
 
 (* time remaining as a function of the expiry instant *)
@@ -101,109 +118,303 @@ Proof.
     + exfalso. apply (AB Hout H4 n Hn). exact Hkey.
 Qed.
 
-(* ------------------------------------------------------------------ one notification per triggered round *)
-Lemma NoDup_app_intro : forall {A} (l1 l2 : list A),
-  NoDup l1 -> NoDup l2 -> (forall a, In a l1 -> ~ In a l2) -> NoDup (l1 ++ l2).
+(* ------------------------------------------------------------------ the deferred functions, one at a time *)
+Lemma find_obj_upd : forall o ob2 os ob, find_obj o os = Some ob -> oid ob2 = o ->
+  find_obj o (upd_obj o (fun _ => ob2) os) = Some ob2.
 Proof.
-  intros A l1 l2. induction l1 as [|x r IH]; cbn; intros H1 H2 Hd; [exact H2|].
-  inversion H1; subst. constructor.
-  - rewrite in_app_iff. intros [H|H]; [contradiction|]. apply (Hd x); auto.
-  - apply IH; auto.
+  intros o ob2. induction os as [|a r IH]; intros ob F Ho; [discriminate|]. unfold find_obj in *. cbn in *.
+  destruct (oid a =? o) eqn:E; cbn.
+  - rewrite Ho, Z.eqb_refl. reflexivity.
+  - rewrite E. eapply IH; eauto.
 Qed.
 
-Lemma exec_all_nodup : forall nw sb os, NoDup (keys sb) -> NoDup (oids os) ->
-  NoDup (map nkey (snd (exec_all nw sb os))).
-Proof.
-  intros nw sb. induction os as [|o r IH]; intros Hk Ho; [constructor|].
-  pose proof (exec_all_ntfs nw sb r) as Hr. cbn in *.
-  destruct (exec_obj nw sb o) as [o' n1] eqn:E1. destruct (exec_all nw sb r) as [r' n2] eqn:E2. cbn in *.
-  inversion Ho as [|? ? Hnotin Ho']; subst. rewrite map_app. apply NoDup_app_intro; [| apply IH; auto |].
-  - unfold exec_obj in E1. destruct (trig o); inversion E1; subst; [|constructor].
-    rewrite map_map. unfold subs_of. cbn. apply (NoDup_map_filter key). exact Hk.
-  - intros a Ha Hb. unfold exec_obj in E1. destruct (trig o); inversion E1; subst; [|destruct Ha].
-    apply in_map_iff in Ha as [n [<- Hn]]. apply in_map_iff in Hn as [x [<- Hx]].
-    unfold subs_of in Hx. apply filter_In in Hx as [_ Hox]. apply Z.eqb_eq in Hox.
-    apply in_map_iff in Hb as [n2' [Hk2 Hn2]]. apply Hr in Hn2 as [o2 [x2 [Ho2 [_ [_ [Hox2 ->]]]]]].
-    cbn in Hk2. inversion Hk2 as [[H1 H2 H3]]. apply Hnotin. rewrite <- Hox, <- H3, Hox2. apply in_map. exact Ho2.
-Qed.
-
-Theorem drain_round : forall s s' out, inv s -> step s Drain = (s', out) ->
-  (forall x o, In x (subs s) -> find_obj (s_oid x) (objs s) = Some o ->
-     (trig o = true -> In (mk_ntf (now s) o x) (o_ntfs out)) /\
-     (trig o = false -> forall n, In n (o_ntfs out) -> nkey n <> key x)) /\
+(* _execute of the live detection instance: every subscription of the object gets the current values once,
+   nobody else anything; the trigger is cleared and the reported value remembered *)
+Theorem execute_step : forall s o g r ob s' out, inv s -> queue s = DExec o g :: r ->
+  find_obj o (objs s) = Some ob -> bound ob = true -> gen ob = g ->
+  step s StepQ = (s', out) ->
+  o_ntfs out = map (mk_ntf (now s) ob) (subs_of o (subs s)) /\
   NoDup (map nkey (o_ntfs out)) /\
-  (forall o, In o (objs s') -> trig o = false) /\ subs s' = subs s.
+  (forall x, In x (subs s) -> s_oid x = o -> In (mk_ntf (now s) ob x) (o_ntfs out)) /\
+  (forall n, In n (o_ntfs out) -> n_oid n = o /\ n_pv n = pv ob /\ n_fl n = fl ob) /\
+  queue s' = r /\ subs s' = subs s /\
+  exists ob', find_obj o (objs s') = Some ob' /\ trig ob' = false /\ pv ob' = pv ob /\
+    (reports_prev (okind ob) = true -> prev ob' = Some (pv ob)).
 Proof.
-  intros s s' out [Hnd [Hod Hlive]] S. cbn [step] in S. rewrite drain_spec in S. inversion S; subst s' out; clear S.
-  cbn [o_ntfs objs subs]. split; [|split; [apply exec_all_nodup; auto|split; [apply exec_all_clears|reflexivity]]].
-  intros x o Hx Fo. pose proof (find_obj_some _ _ _ Fo) as [Hin Hoid]. split.
-  - intro Ht. apply exec_all_ntfs. exists o, x. auto 6.
-  - intros Ht n Hn. apply exec_all_ntfs in Hn as [o2 [x2 [Ho2 [Ht2 [Hx2 [Hox2 ->]]]]]]. cbn. intro E.
-    inversion E as [[E1 E2 E3]]. assert (o2 = o); [|congruence].
-    pose proof (find_obj_in _ _ Hod Ho2) as F2. rewrite <- Hox2, E3 in F2. congruence.
+  intros s o g r ob s' out [Hnd _] Q F Hb Hg S. cbn [step] in S. rewrite Q in S. cbn [run_dfn] in S.
+  cbn [objs set_queue] in S. rewrite F, Hb, Hg, Z.eqb_refl in S. cbn in S. inversion S; subst s' out; clear S.
+  cbn [o_ntfs queue subs objs set_objs set_queue now]. split; [reflexivity|]. split.
+  { rewrite map_map. unfold subs_of. cbn. apply (NoDup_map_filter key). exact Hnd. }
+  split. { intros x Hx Ho. apply in_map. unfold subs_of. apply filter_In. split; [exact Hx|]. apply Z.eqb_eq. exact Ho. }
+  split. { intros n Hn. apply in_map_iff in Hn as [x [<- Hx]]. unfold subs_of in Hx. apply filter_In in Hx as [_ Ho].
+           apply Z.eqb_eq in Ho. cbn. auto. }
+  split; [reflexivity|]. split; [reflexivity|].
+  exists (set_trig (report ob) false). split.
+  { apply (find_obj_upd o _ _ ob F). cbn. rewrite oid_report. apply find_obj_some in F. tauto. }
+  unfold report. destruct (reports_prev (okind ob)); cbn; auto. split; [reflexivity|]. split; [reflexivity|discriminate].
+Qed.
+
+(* _execute of a detection instance that has been unbound meanwhile reaches nobody *)
+Theorem stale_execute_step : forall s o g r s' out, queue s = DExec o g :: r ->
+  (forall ob, find_obj o (objs s) = Some ob -> bound ob = false \/ gen ob <> g) ->
+  step s StepQ = (s', out) -> o_ntfs out = [] /\ s' = set_queue s r.
+Proof.
+  intros s o g r s' out Q H S. cbn [step] in S. rewrite Q in S. cbn [run_dfn] in S. cbn [objs set_queue] in S.
+  destruct (find_obj o (objs s)) as [ob|] eqn:F; [|inversion S; auto].
+  destruct (H ob eq_refl) as [Hb|Hg].
+  - rewrite Hb in S. cbn in S. inversion S; auto.
+  - apply Z.eqb_neq in Hg. rewrite Hg, andb_false_r in S. inversion S; auto.
+Qed.
+
+(* the deferred initial notification: to that Subscription object if it is still in the table, else nothing *)
+Theorem initial_step : forall s i r s' out, queue s = DInit i :: r -> step s StepQ = (s', out) ->
+  match find_id i (subs s) with
+  | Some x => forall ob, find_obj (s_oid x) (objs s) = Some ob -> o_ntfs out = [mk_ntf (now s) ob x]
+  | None => o_ntfs out = [] /\ s' = set_queue s r
+  end.
+Proof.
+  intros s i r s' out Q S. cbn [step] in S. rewrite Q in S. cbn [run_dfn] in S. cbn [subs objs set_queue] in S.
+  destruct (find_id i (subs s)) as [x|].
+  - intros ob F. rewrite F in S. inversion S; reflexivity.
+  - inversion S; auto.
+Qed.
+
+(* a write enqueues the execute exactly when it sets the trigger; a triggered object enqueues nothing more *)
+Theorem write_enqueues : forall s i p v o s' out, nth_error (objs s) i = Some o -> has_prop (okind o) p = true ->
+  step s (Write i p v) = (s', out) ->
+  queue s' = (if negb (trig o) && trig (write_obj o p v) then queue s ++ [DExec (oid o) (gen o)] else queue s) /\
+  (trig o = true -> queue s' = queue s) /\ o_ntfs out = [] /\ subs s' = subs s.
+Proof.
+  intros s i p v o s' out N Hp S. cbn [step] in S. unfold write_ev in S. rewrite N, Hp in S. inversion S; subst s' out.
+  cbn. split; [reflexivity|]. split; [intro Ht; rewrite Ht; reflexivity|auto].
+Qed.
+
+(* ------------------------------------------------------------------ identities of Subscription objects *)
+Definition idinv (s : st) : Prop := Forall (fun x => s_id x < ctr s) (subs s) /\ NoDup (map s_id (subs s)).
+
+Lemma find_id_in : forall sb x, NoDup (map s_id sb) -> In x sb -> find_id (s_id x) sb = Some x.
+Proof.
+  induction sb as [|y r IH]; intros x Hnd Hin; [destruct Hin|]. cbn in Hnd. inversion Hnd as [|? ? Hn Hr]; subst.
+  unfold find_id. cbn. destruct (s_id y =? s_id x) eqn:E.
+  - apply Z.eqb_eq in E. destruct Hin as [->|Hin]; [reflexivity|]. exfalso. apply Hn. rewrite E. apply in_map. exact Hin.
+  - destruct Hin as [->|Hin]; [rewrite Z.eqb_refl in E; discriminate|]. apply IH; assumption.
+Qed.
+
+Lemma idinv_weaken : forall sb c c', c <= c' -> Forall (fun x => s_id x < c) sb -> Forall (fun x : sub => s_id x < c') sb.
+Proof. intros sb c c' H F. eapply Forall_impl; [|exact F]. cbn. intros. lia. Qed.
+
+Lemma ids_replace : forall c p o nsub y sb, NoDup (keys sb) -> In y sb -> key y = (c, p, o) -> s_id nsub = s_id y ->
+  map s_id (map (fun x => if key_eqb c p o x then nsub else x) sb) = map s_id sb.
+Proof.
+  intros c p o nsub y sb Hnd Hy Hk Hid. rewrite map_map. apply map_ext_in. intros x Hx.
+  destruct (key_eqb c p o x) eqn:E; [|reflexivity]. apply key_eqb_iff in E.
+  assert (x = y) by (apply (NoDup_key_eq sb); auto; congruence). subst. exact Hid.
+Qed.
+
+Lemma subscribe_now_id : forall s c p o cf life s' ok code, inv s -> idinv s ->
+  subscribe_now s c p o cf life = (s', ok, code) -> idinv s' /\ ctr s <= ctr s'.
+Proof.
+  intros s c p o cf life s' ok code [Hk _] [Hlt Hnd] H. unfold subscribe_now in H.
+  fold (life_of life) in H. set (lf := life_of life) in *.
+  destruct (find_obj o (objs s)) as [ob|]; [|inversion H; subst; split; [split; auto|lia]].
+  destruct (okind ob); try (inversion H; subst; split; [split; auto|lia]).
+  all: destruct (find_sub c p o (subs s)) as [y|] eqn:FS; inversion H; subst s' ok code; clear H; unfold idinv; cbn [ctr subs].
+  1,3,5: apply find_sub_some in FS as [Hy Hky];
+         erewrite ids_replace; [|exact Hk|exact Hy|exact Hky|reflexivity];
+         assert (Hc : ctr s <= (if lf =? 0 then ctr s else ctr s + 1)) by (destruct (lf =? 0); lia);
+         split; [split; [|exact Hnd]|exact Hc];
+         apply Forall_forall; intros x Hx; apply in_map_iff in Hx as [x0 [<- Hx0]]; rewrite Forall_forall in Hlt;
+         destruct (key_eqb c p o x0); cbn [s_id]; [specialize (Hlt y Hy)|specialize (Hlt x0 Hx0)]; lia.
+  all: match goal with |- _ /\ ?a <= ?c2 => assert (Hc : a + 1 <= c2)
+         by (repeat match goal with |- context [if ?b then _ else _] => destruct b end; lia) end;
+       split; [split|lia];
+       [apply Forall_app; split; [eapply idinv_weaken; [|exact Hlt]; lia|constructor; [cbn [s_id]; lia|constructor]]
+       |rewrite map_app; apply NoDup_snoc; [exact Hnd|cbn [map s_id]; intro Hin; apply in_map_iff in Hin as [x [Hx1 Hx2]];
+          rewrite Forall_forall in Hlt; specialize (Hlt x Hx2); lia]].
+Qed.
+
+Lemma filter_idinv : forall (g : sub -> bool) sb c, Forall (fun x => s_id x < c) sb -> NoDup (map s_id sb) ->
+  Forall (fun x => s_id x < c) (filter g sb) /\ NoDup (map s_id (filter g sb)).
+Proof.
+  intros g sb c F N. split; [|apply NoDup_map_filter; exact N].
+  apply Forall_forall. intros x Hx. apply filter_In in Hx as [Hx _]. rewrite Forall_forall in F. auto.
+Qed.
+
+Lemma cancel_now_id : forall s c p o s' ok code, idinv s -> cancel_now s c p o = (s', ok, code) ->
+  idinv s' /\ ctr s' = ctr s.
+Proof.
+  intros s c p o s' ok code [Hlt Hnd] H. unfold cancel_now in H.
+  destruct (find_obj o (objs s)) as [ob|]; [|inversion H; subst; split; [split; auto|reflexivity]].
+  destruct (okind ob); try (inversion H; subst; split; [split; auto|reflexivity]).
+  all: destruct (find_sub c p o (subs s)); inversion H; subst s' ok code; unfold idinv; cbn [ctr subs drop_sub set_objs];
+       split; try reflexivity; try (split; assumption); apply filter_idinv; assumption.
+Qed.
+
+Lemma fire_item_id : forall s it, idinv s -> idinv (fst (fire_item s it)) /\ ctr s <= ctr (fst (fire_item s it)).
+Proof.
+  intros s [k [c p o|o]] [Hlt Hnd]; cbn.
+  - destruct (find_sub c p o (subs s)); cbn; [|split; [split; auto|lia]].
+    destruct (task_eqb _ _ _); cbn; [|split; [split; auto|lia]]. unfold idinv. cbn. split; [apply filter_idinv; assumption|lia].
+  - destruct (find_obj o (objs s)); cbn; [|split; [split; auto|lia]].
+    destruct (task_eqb _ _ _); cbn; [|split; [split; auto|lia]]. unfold idinv. cbn. split; [split; [|exact Hnd]|lia].
+    eapply idinv_weaken; [|exact Hlt]. lia.
+Qed.
+
+Lemma fire_items_id : forall its s, idinv s -> idinv (fst (fire_items its s)).
+Proof.
+  induction its as [|it r IH]; intros s H; [exact H|]. cbn. pose proof (fire_item_id s it H) as [A _].
+  destruct (fire_item s it) as [s1 n1]. cbn in *. specialize (IH s1 A). destruct (fire_items r s1). exact IH.
+Qed.
+
+Lemma ticks_id : forall n s, idinv s -> idinv (fst (ticks n s)).
+Proof.
+  induction n as [|n IH]; intros s H; [exact H|]. cbn [ticks].
+  assert (A : idinv (fst (tick s))) by (unfold tick; apply fire_items_id; exact H).
+  destruct (tick s) as [s1 n1]. cbn in A. specialize (IH s1 A). destruct (ticks n s1). exact IH.
+Qed.
+
+Lemma drain_id : forall s s1 ns, idinv s -> drain s = (s1, ns) -> idinv s1 /\ ctr s1 = ctr s.
+Proof.
+  intros s s1 ns H D. unfold drain in D. apply run_queue_facts in D as [_ [B [C _]]]. unfold idinv. rewrite B, C. auto.
+Qed.
+
+Lemma step_id : forall s e s' out, inv s -> idinv s -> wf_ev e -> step s e = (s', out) -> idinv s'.
+Proof.
+  intros s e s' out Hi Hid Hwf S.
+  destruct e as [i p v| |c p o cf life|c p o|t|c| |c p o cf life|c p o|c]; cbn [step] in S.
+  - unfold write_ev in S. destruct (nth_error (objs s) i) as [ob|]; [destruct (has_prop (okind ob) p)|]; inversion S; subst; exact Hid.
+  - destruct (drain s) as [s1 ns] eqn:D. inversion S; subst. apply (drain_id _ _ _ Hid D).
+  - destruct (drain s) as [s1 n1] eqn:D1. destruct (drain_facts _ _ _ Hi D1) as [A1 _]. destruct (drain_id _ _ _ Hid D1) as [I1 _].
+    destruct (subscribe_now s1 c p o cf life) as [[s2 ok] code] eqn:SN. destruct (subscribe_now_id _ _ _ _ _ _ _ _ _ A1 I1 SN) as [I2 _].
+    destruct (drain s2) as [s3 n3] eqn:D3. inversion S; subst. apply (drain_id _ _ _ I2 D3).
+  - destruct (drain s) as [s1 n1] eqn:D1. destruct (drain_id _ _ _ Hid D1) as [I1 _].
+    destruct (cancel_now s1 c p o) as [[s2 ok] code] eqn:CN. destruct (cancel_now_id _ _ _ _ _ _ _ I1 CN) as [I2 _].
+    destruct (drain s2) as [s3 n3] eqn:D3. inversion S; subst. apply (drain_id _ _ _ I2 D3).
+  - destruct (drain s) as [s1 n1] eqn:D1. destruct (drain_id _ _ _ Hid D1) as [I1 _].
+    pose proof (ticks_id (Z.to_nat t) s1 I1) as T. destruct (ticks (Z.to_nat t) s1) as [s2 n2]. inversion S; subst. exact T.
+  - destruct (drain s) as [s1 ns] eqn:D. inversion S; subst. apply (drain_id _ _ _ Hid D).
+  - destruct (queue s) as [|d r]; [inversion S; subst; exact Hid|].
+    destruct (run_dfn (set_queue s r) d) as [s1 ns] eqn:R. inversion S; subst.
+    apply run_dfn_facts in R as [_ [B [C _]]]. unfold idinv. rewrite B, C. exact Hid.
+  - destruct (subscribe_now s c p o cf life) as [[s2 ok] code] eqn:SN. inversion S; subst.
+    apply (subscribe_now_id _ _ _ _ _ _ _ _ _ Hi Hid SN).
+  - destruct (cancel_now s c p o) as [[s2 ok] code] eqn:CN. inversion S; subst. apply (cancel_now_id _ _ _ _ _ _ _ Hid CN).
+  - inversion S; subst; exact Hid.
 Qed.
 
 (* ------------------------------------------------------------------ subscribe: ack + initial notification *)
-Lemma exec_all_find : forall nw sb os i ob, find_obj i os = Some ob ->
-  exists ob', find_obj i (fst (exec_all nw sb os)) = Some ob' /\
-    pv ob' = pv ob /\ fl ob' = fl ob /\ okind ob' = okind ob.
+Lemma find_obj_upd_other : forall i o f os, i <> o -> (forall a, oid a = o -> oid (f a) = o) ->
+  find_obj i (upd_obj o f os) = find_obj i os.
 Proof.
-  intros nw sb. induction os as [|o r IH]; intros i ob F; [discriminate|]. unfold find_obj in *. cbn in *.
-  destruct (exec_obj nw sb o) as [o' n1] eqn:E1. destruct (exec_all nw sb r) as [r' n2] eqn:E2. cbn in *.
-  assert (Ho' : oid o' = oid o /\ pv o' = pv o /\ fl o' = fl o /\ okind o' = okind o).
-  { unfold exec_obj in E1. destruct (trig o); inversion E1; subst; auto. unfold report.
-    destruct (reports_prev (okind o)); cbn; auto. }
-  destruct Ho' as [A [B [C D]]]. rewrite A. destruct (oid o =? i).
-  - inversion F; subst. exists o'. auto.
-  - apply IH. exact F.
+  intros i o f os Hne Hf. induction os as [|a r IH]; [reflexivity|]. unfold find_obj in *. cbn.
+  destruct (oid a =? o) eqn:E.
+  - apply Z.eqb_eq in E. rewrite (Hf a E). rewrite E. assert (o =? i = false) by lia. rewrite H. exact IH.
+  - destruct (oid a =? i); [reflexivity|exact IH].
+Qed.
+
+Definition same_vals (a b : obj) : Prop := pv a = pv b /\ fl a = fl b /\ okind a = okind b.
+
+Lemma run_dfn_find : forall s d s1 ns i ob, run_dfn s d = (s1, ns) -> find_obj i (objs s) = Some ob ->
+  exists ob', find_obj i (objs s1) = Some ob' /\ same_vals ob' ob.
+Proof.
+  intros s d s1 ns i ob H F.
+  assert (Hsame : s1 = s -> exists ob', find_obj i (objs s1) = Some ob' /\ same_vals ob' ob).
+  { intros ->. exists ob. unfold same_vals. auto. }
+  assert (Hupd : forall o a g, find_obj o (objs s) = Some a -> same_vals (g a) a -> oid (g a) = o ->
+            exists ob', find_obj i (upd_obj o (fun _ => g a) (objs s)) = Some ob' /\ same_vals ob' ob).
+  { intros o a g Fa Hs Ho. destruct (Z.eq_dec i o) as [->|Hne].
+    - rewrite (find_obj_upd o (g a) (objs s) a Fa Ho). exists (g a). split; [reflexivity|]. congruence.
+    - rewrite find_obj_upd_other; auto. exists ob. unfold same_vals. auto. }
+  destruct d as [o g|k]; cbn in H.
+  - destruct (find_obj o (objs s)) as [a|] eqn:Fa; [|inversion H; auto].
+    destruct (bound a && (gen a =? g)); inversion H; subst; auto. cbn.
+    apply (Hupd o a (fun a => set_trig (report a) false) Fa).
+    + unfold same_vals, report. destruct (reports_prev (okind a)); cbn; auto.
+    + cbn. rewrite oid_report. apply find_obj_some in Fa. tauto.
+  - destruct (find_id k (subs s)) as [x|]; [|inversion H; auto].
+    destruct (find_obj (s_oid x) (objs s)) as [a|] eqn:Fa; inversion H; subst; auto. cbn.
+    apply (Hupd (s_oid x) a report Fa).
+    + unfold same_vals, report. destruct (reports_prev (okind a)); cbn; auto.
+    + rewrite oid_report. apply find_obj_some in Fa. tauto.
+Qed.
+
+Lemma run_queue_find : forall q s s1 ns i ob, run_queue q s = (s1, ns) -> find_obj i (objs s) = Some ob ->
+  exists ob', find_obj i (objs s1) = Some ob' /\ same_vals ob' ob.
+Proof.
+  induction q as [|d r IH]; intros s s1 ns i ob H F; cbn in H.
+  - inversion H; subst. exists ob. unfold same_vals. auto.
+  - destruct (run_dfn s d) as [sa na] eqn:E1. destruct (run_queue r sa) as [sb nb] eqn:E2. inversion H; subst.
+    destruct (run_dfn_find _ _ _ _ _ _ E1 F) as [oa [Fa [A1 [A2 A3]]]].
+    destruct (IH _ _ _ _ _ E2 Fa) as [ob' [Fb [B1 [B2 B3]]]]. exists ob'. unfold same_vals. split; [exact Fb|]. repeat split; congruence.
+Qed.
+
+Lemma subscribe_now_shape : forall s c p o cf life s' ok code ob,
+  inv s -> find_obj o (objs s) = Some ob -> okind ob <> KNoCov -> 0 <= life_of life ->
+  subscribe_now s c p o cf life = (s', ok, code) ->
+  ok = true /\ now s' = now s /\ exists nsub ob2,
+    In nsub (subs s') /\ key nsub = (c, p, o) /\ s_conf nsub = cf /\ s_life nsub = life_of life /\
+    queue s' = queue s ++ [DInit (s_id nsub)] /\ find_obj o (objs s') = Some ob2 /\ pv ob2 = pv ob /\ fl ob2 = fl ob /\
+    (life_of life = 0 -> s_task nsub = None) /\
+    (0 < life_of life -> exists k, s_task nsub = Some (now s + life_of life * TICKS, k)).
+Proof.
+  intros s c p o cf life s' ok code ob Hi F HK Hlf H. unfold subscribe_now in H. rewrite F in H.
+  fold (life_of life) in H. set (lf := life_of life) in *.
+  pose proof (find_obj_some _ _ _ F) as [_ Foid].
+  assert (Hb : pv (bind_obj ob) = pv ob /\ fl (bind_obj ob) = fl ob /\ oid (bind_obj ob) = o).
+  { unfold bind_obj. destruct (bound ob); cbn; auto. }
+  destruct Hb as [Hb1 [Hb2 Hb3]].
+  destruct (okind ob) eqn:K; try contradiction.
+  all: destruct (find_sub c p o (subs s)) as [y|] eqn:FS; inversion H; subst s' ok code; clear H; cbn [now subs objs queue].
+  all: split; [reflexivity|]; split; [reflexivity|].
+  1,3,5: apply find_sub_some in FS as [Hy Hky];
+         eexists; exists (bind_obj ob); split;
+         [apply in_map_iff; exists y; split; [apply key_eqb_iff in Hky; rewrite Hky; reflexivity|exact Hy]|];
+         cbn [key s_cli s_proc s_oid s_conf s_life s_task s_id];
+         split; [reflexivity|]; split; [reflexivity|]; split; [reflexivity|]; split; [reflexivity|];
+         split; [apply (find_obj_upd o _ _ ob F); exact Hb3|]; split; [exact Hb1|]; split; [exact Hb2|];
+         split; [intro E; rewrite E; reflexivity|intro E; destruct (lf =? 0) eqn:E0; [lia|eauto]].
+  all: eexists; eexists; split; [apply in_or_app; right; left; reflexivity|];
+       cbn [key s_cli s_proc s_oid s_conf s_life s_task s_id];
+       split; [reflexivity|]; split; [reflexivity|]; split; [reflexivity|]; split; [reflexivity|];
+       split; [apply (find_obj_upd o _ _ ob F); repeat match goal with |- context [if ?b then _ else _] => destruct b end; cbn; exact Hb3|];
+       split; [repeat match goal with |- context [if ?b then _ else _] => destruct b end; cbn; exact Hb1|];
+       split; [repeat match goal with |- context [if ?b then _ else _] => destruct b end; cbn; exact Hb2|];
+       split; [intro E; destruct (0 <? lf) eqn:E0; [lia|reflexivity]|intro E; destruct (0 <? lf) eqn:E0; [eauto|lia]].
 Qed.
 
 Theorem subscribe_initial : forall s c p o cf life s' out ob,
-  inv s -> wf_ev (Subscribe c p o cf life) -> step s (Subscribe c p o cf life) = (s', out) ->
+  inv s -> idinv s -> wf_ev (Subscribe c p o cf life) -> step s (Subscribe c p o cf life) = (s', out) ->
   find_obj o (objs s) = Some ob -> okind ob <> KNoCov ->
   o_ack out = 1 /\
   In (mkNtf c p o cf (life_of life) (pv ob) (fl ob) (now s)) (o_ntfs out) /\
+  queue s' = [] /\
   exists x, find_sub c p o (subs s') = Some x /\ s_conf x = cf /\ s_life x = life_of life /\
     (life_of life = 0 -> s_task x = None) /\
     (0 < life_of life -> exists k, s_task x = Some (now s + life_of life * TICKS, k)).
 Proof.
-  intros s c p o cf life s' out ob Hi Hwf S F HK. cbn [step] in S.
+  intros s c p o cf life s' out ob Hi Hid Hwf S F HK. cbn [step] in S.
   assert (Hlf : 0 <= life_of life) by (destruct life; cbn in *; lia).
-  destruct (drain s) as [s1 ns] eqn:D. pose proof (drain_facts _ _ _ Hi D) as [A [B [C _]]].
-  rewrite drain_spec in D. inversion D as [[D1 D2]].
-  destruct (exec_all_find (now s) (subs s) (objs s) o ob F) as [ob1 [F1 [Hpv [Hfl Hk]]]].
-  assert (Fs1 : find_obj o (objs s1) = Some ob1) by (rewrite <- D1; exact F1).
-  pose proof (do_subscribe_facts _ _ _ _ _ _ _ _ _ A Hlf S) as [[Hnd' _] _].
-  unfold do_subscribe in S. rewrite Fs1 in S. fold (life_of life) in S. set (lf := life_of life) in *.
-  assert (Htrem : forall k, trem (now s1) (mkSub c p o cf lf (if lf =? 0 then None else Some (now s1 + lf * TICKS, k))) = lf).
-  { intro k. unfold trem, TICKS. cbn. destruct (lf =? 0) eqn:E; [lia|]. cbn.
-    replace (now s1 + lf * 8 - now s1) with (lf * 8) by lia. rewrite Z.quot_mul by lia. destruct (lf =? 0); [discriminate|reflexivity]. }
-  assert (Htrem2 : forall k, trem (now s1) (mkSub c p o cf lf (if 0 <? lf then Some (now s1 + lf * TICKS, k) else None)) = lf).
-  { intro k. unfold trem, TICKS. cbn. destruct (lf =? 0) eqn:E; [lia|]. destruct (0 <? lf) eqn:E2; [|lia]. cbn.
-    replace (now s1 + lf * 8 - now s1) with (lf * 8) by lia. rewrite Z.quot_mul by lia. rewrite E. reflexivity. }
-  assert (Hb : forall g : obj -> obj, True) by auto.
-  rewrite <- Hk in HK.
-  destruct (okind ob1) eqn:K; try contradiction.
-  all: destruct (find_sub c p o (subs s1)) as [y|] eqn:FS; inversion S; subst s' out; clear S; cbn [o_ack o_ntfs ack_out subs].
-  all: split; [reflexivity|]; split;
-       [apply in_or_app; right; left; unfold mk_ntf; cbn [s_cli s_proc s_oid s_conf];
-        rewrite ?Htrem, ?Htrem2; unfold bind_obj; destruct (bound ob1); cbn; rewrite Hpv, Hfl, B; reflexivity|].
-  (* renewals *)
-  1,3,5: apply find_sub_some in FS as [Hy Hky];
-         eexists; split;
-         [ match goal with |- find_sub _ _ _ ?l = _ =>
-             assert (Hin : In (mkSub c p o cf lf (if lf =? 0 then None else Some (now s1 + lf * TICKS, ctr s1))) l)
-               by (apply in_map_iff; exists y; split; [apply key_eqb_iff in Hky; rewrite Hky; reflexivity|exact Hy]) end;
-           exact (find_sub_in _ _ Hnd' Hin)
-         | cbn; split; [reflexivity|split; [reflexivity|split;
-             [intro E; rewrite E; reflexivity|intro E; destruct (lf =? 0) eqn:E0; [lia|rewrite <- B; eauto]]]]].
-  (* new subscriptions *)
-  all: eexists; split;
-       [ match goal with |- find_sub _ _ _ (?l ++ [?x]) = _ =>
-           assert (Hin : In x (l ++ [x])) by (apply in_or_app; right; left; reflexivity) end;
-         exact (find_sub_in _ _ Hnd' Hin)
-       | cbn; split; [reflexivity|split; [reflexivity|split;
-           [intro E; rewrite E; reflexivity|intro E; destruct (0 <? lf) eqn:E0; [rewrite <- B; eauto|lia]]]]].
+  destruct (drain s) as [s1 n1] eqn:D1. destruct (drain_facts _ _ _ Hi D1) as [A1 [B1 [C1 [Q1 _]]]].
+  destruct (drain_id _ _ _ Hid D1) as [I1 _].
+  unfold drain in D1. destruct (run_queue_find _ _ _ _ _ _ D1 F) as [ob1 [F1 [V1 [V2 V3]]]].
+  destruct (subscribe_now s1 c p o cf life) as [[s2 ok] code] eqn:SN.
+  assert (HK1 : okind ob1 <> KNoCov) by congruence.
+  destruct (subscribe_now_shape _ _ _ _ _ _ _ _ _ _ A1 F1 HK1 Hlf SN)
+    as [Hok [B2 [nsub [ob2 [Hin [Hkey [Hcf [Hlife [Hq [F2 [P1 [P2 [T1 T2]]]]]]]]]]]]].
+  destruct (subscribe_now_facts _ _ _ _ _ _ _ _ _ A1 Hlf SN) as [A2 _].
+  destruct (subscribe_now_id _ _ _ _ _ _ _ _ _ A1 I1 SN) as [[_ Hnd2] _].
+  destruct (drain s2) as [s3 n3] eqn:D3. destruct (drain_facts _ _ _ A2 D3) as [A3 [B3 [C3 [Q3 _]]]].
+  inversion S; subst s' out; clear S. subst ok. cbn [req_out o_ack o_ntfs ack_out].
+  split; [reflexivity|]. split.
+  - apply in_or_app. right. unfold drain in D3. rewrite Hq, Q1 in D3. cbn [app run_queue run_dfn] in D3.
+    cbn [subs objs set_queue] in D3. rewrite (find_id_in _ _ Hnd2 Hin) in D3.
+    assert (Ho : s_oid nsub = o) by (unfold key in Hkey; congruence). rewrite Ho, F2 in D3. inversion D3 as [[E3 E4]].
+    left. unfold mk_ntf. unfold key in Hkey. inversion Hkey as [[K1 K2 K3]]. rewrite Hcf, P1, P2, V1, V2. f_equal; try congruence.
+    unfold trem. rewrite Hlife. destruct (life_of life =? 0) eqn:E0; [lia|].
+    destruct (T2 ltac:(lia)) as [k ->]. rewrite B2, B1. unfold TICKS.
+    replace (now s + life_of life * 8 - now s) with (life_of life * 8) by lia. rewrite Z.quot_mul by lia. rewrite E0. reflexivity.
+  - split; [exact Q3|]. exists nsub. rewrite C3. unfold key in Hkey. inversion Hkey as [[K1 K2 K3]].
+    split; [try (rewrite <- K1, <- K2, <- K3); apply find_sub_in; [apply A2|exact Hin]|]. rewrite B1 in *. auto.
 Qed.
 
 (* ------------------------------------------------------------------ the active-subscriptions list *)
@@ -213,7 +424,7 @@ Proof.
   intros. unfold mk_act. destruct (find_obj (s_oid x) os) as [o|]; [destruct (okind o)|]; cbn; auto.
 Qed.
 
-Theorem active_list_exact : forall s c s' out, inv s -> step s (ReadActive c) = (s', out) ->
+Theorem active_list_exact : forall s c s' out, inv s -> (step s (ReadActive c) = (s', out) \/ step s (ReadNow c) = (s', out)) ->
   exists l, o_act out = Some l /\ map akey l = keys (subs s) /\ NoDup (map akey l) /\
     forall a, In a l -> exists x, In x (subs s) /\ akey a = key x /\ a_conf a = s_conf x /\
       match s_task x with
@@ -221,17 +432,26 @@ Theorem active_list_exact : forall s c s' out, inv s -> step s (ReadActive c) = 
       | None => a_trem a = 0 /\ s_life x = 0
       end.
 Proof.
-  intros s c s' out Hi S. cbn [step] in S. destruct (drain s) as [s1 ns] eqn:D.
-  pose proof (drain_facts _ _ _ Hi D) as [A [B [C _]]]. inversion S; subst s' out; clear S. cbn [o_act].
-  exists (read_active s1). split; [reflexivity|]. unfold read_active. rewrite C, B.
-  assert (E : map akey (map (mk_act (now s) (objs s1)) (subs s)) = keys (subs s)).
-  { rewrite map_map. apply map_ext. intro x. apply akey_mk_act. }
-  split; [exact E|]. split; [rewrite E; apply Hi|].
-  intros a Ha. apply in_map_iff in Ha as [x [<- Hx]]. exists x. split; [exact Hx|].
-  destruct (akey_mk_act (now s) (objs s1) x) as [K1 [K2 K3]]. split; [exact K1|]. split; [exact K2|].
-  destruct Hi as [_ [_ Hlive]]. rewrite Forall_forall in Hlive. specialize (Hlive x Hx).
-  rewrite K3, (trem_remaining _ _ (live_le _ _ Hlive)). unfold sub_live in Hlive.
-  destruct (s_task x) as [[t k]|]; [split; [tauto|reflexivity]|auto].
+  intros s c s' out Hi S.
+  assert (G : forall os, exists l, Some (map (mk_act (now s) os) (subs s)) = Some l /\ map akey l = keys (subs s) /\ NoDup (map akey l) /\
+    forall a, In a l -> exists x, In x (subs s) /\ akey a = key x /\ a_conf a = s_conf x /\
+      match s_task x with
+      | Some (t, _) => now s < t /\ a_trem a = remaining (s_life x) t (now s)
+      | None => a_trem a = 0 /\ s_life x = 0
+      end).
+  { intro os. eexists. split; [reflexivity|].
+    assert (E : map akey (map (mk_act (now s) os) (subs s)) = keys (subs s)).
+    { rewrite map_map. apply map_ext. intro x. apply akey_mk_act. }
+    split; [exact E|]. split; [rewrite E; apply Hi|].
+    intros a Ha. apply in_map_iff in Ha as [x [<- Hx]]. exists x. split; [exact Hx|].
+    destruct (akey_mk_act (now s) os x) as [K1 [K2 K3]]. split; [exact K1|]. split; [exact K2|].
+    destruct Hi as [_ [_ Hlive]]. rewrite Forall_forall in Hlive. specialize (Hlive x Hx).
+    rewrite K3, (trem_remaining _ _ (live_le _ _ Hlive)). unfold sub_live in Hlive.
+    destruct (s_task x) as [[t k]|]; [split; [tauto|reflexivity]|auto]. }
+  destruct S as [S|S]; cbn [step] in S.
+  - destruct (drain s) as [s1 ns] eqn:D. pose proof (drain_facts _ _ _ Hi D) as [A [B [C _]]].
+    inversion S; subst s' out; clear S. cbn [o_act]. unfold read_active. rewrite C, B. apply G.
+  - inversion S; subst s' out. cbn [o_act]. unfold read_active. apply G.
 Qed.
 
 (* ------------------------------------------------------------------ a subscription stays until cancelled or expired *)
@@ -273,32 +493,41 @@ Proof.
 Qed.
 
 Theorem subscription_persists : forall s e s' out x, inv s -> wf_ev e -> step s e = (s', out) ->
-  In x (subs s) -> ~ is_subscribe_of (key x) e ->
-  (forall c p o, e = Cancel c p o -> key x <> (c, p, o)) ->
+  In x (subs s) -> ~ is_subscribe_of (key x) e -> ~ is_cancel_of (key x) e ->
   (forall t, e = Advance t -> not_due_before x (now s + t)) ->
   In x (subs s').
 Proof.
   intros s e s' out x Hi Hwf S Hx Hns Hnc Hadv.
-  destruct e as [i p v| |c p o cf life|c p o|t|c]; cbn [step] in S.
-  - destruct (nth_error (objs s) i) as [ob|]; [destruct (has_prop (okind ob) p)|]; inversion S; subst; auto.
+  destruct e as [i p v| |c p o cf life|c p o|t|c| |c p o cf life|c p o|c]; cbn [step] in S.
+  - unfold write_ev in S. destruct (nth_error (objs s) i) as [ob|]; [destruct (has_prop (okind ob) p)|]; inversion S; subst; auto.
   - destruct (drain s) as [s1 ns] eqn:D. pose proof (drain_facts _ _ _ Hi D) as [_ [_ [C _]]].
     inversion S; subst. rewrite C. exact Hx.
-  - destruct (drain s) as [s1 ns] eqn:D. pose proof (drain_facts _ _ _ Hi D) as [_ [_ [C _]]].
-    cbn in Hns. unfold do_subscribe in S. destruct (find_obj o (objs s1)) as [ob|]; [|inversion S; subst; rewrite C; exact Hx].
-    destruct (okind ob); try (inversion S; subst; rewrite C; exact Hx).
-    all: destruct (find_sub c p o (subs s1)); inversion S; subst s' out; cbn [subs]; rewrite C.
-    1,3,5: apply in_map_iff; exists x; split; [|exact Hx];
-           destruct (key_eqb c p o x) eqn:E; [apply key_eqb_iff in E; contradiction|reflexivity].
-    all: apply in_or_app; left; exact Hx.
-  - destruct (drain s) as [s1 ns] eqn:D. pose proof (drain_facts _ _ _ Hi D) as [A [_ [C _]]].
-    destruct (do_cancel_facts _ _ _ _ _ _ _ A S) as [_ [_ [_ [_ [_ K]]]]]. apply K; [rewrite C; exact Hx|].
-    apply (Hnc c p o eq_refl).
+  - destruct (drain s) as [s1 n1] eqn:D1. destruct (drain_facts _ _ _ Hi D1) as [A1 [_ [C1 _]]].
+    assert (Hlf : 0 <= life_of life) by (destruct life; cbn in *; lia).
+    destruct (subscribe_now s1 c p o cf life) as [[s2 ok] code] eqn:SN.
+    destruct (subscribe_now_facts _ _ _ _ _ _ _ _ _ A1 Hlf SN) as [A2 [_ [_ K2]]].
+    destruct (drain s2) as [s3 n3] eqn:D3. destruct (drain_facts _ _ _ A2 D3) as [_ [_ [C3 _]]].
+    inversion S; subst. rewrite C3. apply K2; [rewrite C1; exact Hx|exact Hns].
+  - destruct (drain s) as [s1 n1] eqn:D1. destruct (drain_facts _ _ _ Hi D1) as [A1 [_ [C1 _]]].
+    destruct (cancel_now s1 c p o) as [[s2 ok] code] eqn:CN.
+    destruct (cancel_now_facts _ _ _ _ _ _ _ A1 CN) as [A2 [_ [_ [_ K2]]]].
+    destruct (drain s2) as [s3 n3] eqn:D3. destruct (drain_facts _ _ _ A2 D3) as [_ [_ [C3 _]]].
+    inversion S; subst. rewrite C3. apply K2; [rewrite C1; exact Hx|exact Hnc].
   - destruct (drain s) as [s1 n1] eqn:D. pose proof (drain_facts _ _ _ Hi D) as [[A1 [A2 A3]] [B [C _]]].
     pose proof (ticks_keeps (Z.to_nat t) s1 x A1 A3) as K. destruct (ticks (Z.to_nat t) s1) as [s2 n2].
     inversion S; subst s' out. cbn in *. apply K; [rewrite C; exact Hx|]. rewrite B.
     rewrite Z2Nat.id by exact Hwf. apply Hadv. reflexivity.
   - destruct (drain s) as [s1 ns] eqn:D. pose proof (drain_facts _ _ _ Hi D) as [_ [_ [C _]]].
     inversion S; subst. cbn. rewrite C. exact Hx.
+  - destruct (queue s) as [|d r]; [inversion S; subst; exact Hx|].
+    destruct (run_dfn (set_queue s r) d) as [s1 ns] eqn:R. inversion S; subst.
+    apply run_dfn_facts in R as [_ [B _]]. rewrite B. exact Hx.
+  - assert (Hlf : 0 <= life_of life) by (destruct life; cbn in *; lia).
+    destruct (subscribe_now s c p o cf life) as [[s2 ok] code] eqn:SN.
+    destruct (subscribe_now_facts _ _ _ _ _ _ _ _ _ Hi Hlf SN) as [_ [_ [_ K2]]]. inversion S; subst. apply K2; auto.
+  - destruct (cancel_now s c p o) as [[s2 ok] code] eqn:CN.
+    destruct (cancel_now_facts _ _ _ _ _ _ _ Hi CN) as [_ [_ [_ [_ K2]]]]. inversion S; subst. apply K2; auto.
+  - inversion S; subst. exact Hx.
 Qed.
 
 (* the table never holds an elapsed subscription *)
